@@ -46,6 +46,7 @@ def run(idx: Index, rep: Report, tier: str):
     check_dunders(idx, rep, an, tier)
     check_subclass_attr_guards(idx, rep)
     check_multiform_tables(idx, rep)
+    check_index_ranges(idx, rep)
     check_numpy_api(idx, rep, [OPS, MULTI], rule="K11.numpy-api")
     rep.stats.update({"alias_" + k: v for k, v in an.stats.items()})
 
@@ -283,3 +284,31 @@ def check_multiform_tables(idx: Index, rep: Report):
                what="two operators are reported as commuting only when no term of the first anticommutes with a term of the second",
                reason=f"returns {norm(overall.value)}: true as soon as ONE term commutes (e.g. Z0 + X1 with Z0 Z1 is reported commuting, "
                       f"although [Z0 + X1, Z0 Z1] = -2i Z0 Y1)")
+
+
+WIDE_INT = {"int", "np.int64", "np.intp", "np.int32", "np.uint32", "np.uint64", "numpy.int64", "numpy.intp", "'int64'", "'int'", "np.int_"}
+
+
+def check_index_ranges(idx: Index, rep: Report):
+    """Arrays that enumerate rows or columns 0..n-1 (n a length or a shape entry) are later used to gather from other arrays; their
+    element type has to hold n-1 for every n, i.e. it is a fixed wide integer type and not one inherited from the data
+    (Pauli words are stored as int8: a row counter in that type wraps beyond 127 rows)."""
+    rule = "K9.index-range-width"
+    mm = idx.module_by_relpath(MULTI)
+    count = 0
+    for f in mm.functions.values():
+        for n in own_nodes(f.node):
+            if not (isinstance(n, ast.Call) and norm(n.func) in ("np.linspace", "np.arange", "numpy.linspace", "numpy.arange")):
+                continue
+            bounds = " ".join(norm(a) for a in n.args)
+            if "len(" not in bounds and ".shape" not in bounds and "n_terms" not in bounds and "n_qubits" not in bounds:
+                continue
+            count += 1
+            dt = next((norm(k.value) for k in n.keywords if k.arg == "dtype"), None)
+            if dt is None and norm(n.func).endswith("arange"):
+                dt = "int"                      # arange over integers defaults to the platform integer
+            rep.decide(dt in WIDE_INT, rule, f, n, text=f"{norm(n.func)}({bounds[:60]}) dtype={dt}",
+                       what="a 0..n-1 counter array has a fixed wide integer element type (it must hold n-1 for every n)",
+                       reason=f"element type is `{dt}`: not a fixed wide integer type, so the counter can wrap or lose precision for large n "
+                              f"(Pauli-word arrays are int8: a counter in the data's type wraps beyond 127 rows) and the rows gathered through it are wrong")
+    rep.floor("0..n-1 counter arrays in multiformoperator.py", count, 2)
